@@ -39,12 +39,23 @@ Theorem C04_split_join : forall c l,
 Proof. exact split_join. Qed.
 Print Assumptions C04_split_join.
 
-(* matrix and deepObject: the table's serialisation is defined (Model/OasTable.v: ser_matrix,
-   ser_query DeepObject) and tied to the implementation on every run, but their parsers'
-   round-trip lemmas are not proved here: C04_matrix_roundtrip is NOT claimed (partial). *)
+(** matrix (both explode settings, all three shapes) and deepObject round-trip as well. *)
+Theorem C04_matrix_roundtrip : forall explode name v,
+  nonempty v -> clean [comma; semi; "="%char] v -> contains semi name = false ->
+  parse_matrix explode name (shape_of v) (ser_matrix explode name v) = Some v.
+Proof. exact matrix_roundtrip. Qed.
+Print Assumptions C04_matrix_roundtrip.
+
+Theorem C04_deep_object_roundtrip : forall explode name l,
+  (forall p, In p l -> contains rbracket (fst p) = false) ->
+  parse_query DeepObject explode name SObj (ser_query DeepObject explode name (VObj l)) = Some (VObj l).
+Proof. exact deep_object_roundtrip. Qed.
+Print Assumptions C04_deep_object_roundtrip.
 
 Example C04_example :
   ser_label true (VArr ["3"; "4"; "5"]%string) = ".3.4.5"%string /\
   parse_label true SArr ".3.4.5" = Some (VArr ["3"; "4"; "5"]%string) /\
-  ser_simple true (VObj [("role", "admin"); ("firstName", "Alex")]%string) = "role=admin,firstName=Alex"%string.
+  ser_simple true (VObj [("role", "admin"); ("firstName", "Alex")]%string) = "role=admin,firstName=Alex"%string /\
+  parse_matrix true "id" SArr ";id=3;id=4;id=5" = Some (VArr ["3"; "4"; "5"]%string) /\
+  parse_matrix false "id" SObj ";id=role,admin,firstName,Alex" = Some (VObj [("role", "admin"); ("firstName", "Alex")]%string).
 Proof. vm_compute. repeat split. Qed.
